@@ -59,6 +59,9 @@ class FakeLock(object):
         self.depth -= 1
         if self.depth <= 0:
             self.owner = None
+            # another thread may run right after the lock is given up (before the next
+            # statement of this one)
+            self.baton.yield_point('unlock:%s' % self.name)
 
     def __enter__(self):
         self.acquire()
